@@ -70,9 +70,9 @@ CLAIMED.update({
    technique=VT, ref="DESIGN.md §4 C08, §6"),
  "C16": dict(
    text="Narrowed: deductive proof that the signed byte layouts (Appointment, RegistrationReceipt, AppointmentReceipt, Locator, UserId) equal their spec functions and determine their fields uniquely (injectivity lemmas, "
-        "big-endian u32 via bit-vector reasoning, UTF-8 via vstd's encode/decode lemma); appointment status: number -> status and name -> status are the inverses of the documented tables and Display writes the documented name; "
+        "big-endian u32 via bit-vector reasoning, UTF-8 via vstd's encode/decode lemma); appointment status: number -> status and name -> status are the inverses of the documented tables and Display writes the documented name; the serde adapters' kernels (serde_be::serialize and its visitor's visit_str: byte-reversed hex, with a proved round trip from the hex axiom; serde_status::serialize and visit_str: documented status names); "
         "the client hands a reply whose body decodes to the caller as decoded, whatever the status code (process_post_response).",
-   note=TB + " NOT covered: serde derive output, build.rs-injected attributes, serde_be/serde_status adapters (generic over Serializer), JSON framing, HTTP layer - code behind macros and libraries.",
+   note=TB + " NOT covered: serde derive output, build.rs-injected attributes (which field uses which adapter), serde_vec_bytes, JSON framing, HTTP layer - code behind macros and libraries; the hex crate and the Serializer are uninterpreted.",
    technique=VT, ref="DESIGN.md §4 C16, §6"),
  "C17": dict(
    text="Narrowed: deductive proof of the wiring of cryptography::{encrypt, decrypt} (key = SHA256(txid), zero nonce, consensus (de)serialisation) hence decrypt(encrypt(t,k),k) == Ok(t) from the AEAD/consensus round-trip axioms; "
